@@ -119,6 +119,9 @@ type seqCase struct {
 	mkTarget     func(maximum uint64) *otter.Cache[int, int]
 	maintMode    bool  // closed-loop policy replay: restricted op mix, audits, maintenance markers
 	maintRuns    []int64
+	maintAdj     []int64 // per maintenance run: the hill climber's amount (value hook 11 in policy.climb)
+	climber      bool    // closed-loop case with a maximum large enough for the hill climber to move entries
+	phaseKeys    [2]int
 	staleBase    int           // events before this index belong to the maintenance a stale write raced with
 	returnedAt   map[int]int64 // value -> clock when the write that created it returned
 	touched      []int
@@ -209,15 +212,29 @@ func (s *seqCase) setup(caseNo int) {
 	s.clk = &manualClock{now: []int64{1000, 1 << 40, 1_800_000_000_000_000_000}[r.intn(3)]}
 	opts := &otter.Options[int, int]{}
 	s.maximum = 0
+	if s.maintMode && caseNo%6 == 5 {
+		// the hill climber: a maximum of 16 or more makes its amount (6.25 % of the maximum, decaying) a whole
+		// number, so that it moves entries between the window and the main space
+		s.climber = true
+		if s.bound == 0 {
+			s.bound = 1 + r.intn(2)
+		}
+	}
 	switch s.bound {
 	case 1:
 		s.maximum = uint64(1 + r.intn(5))
 		if s.maintMode {
 			s.maximum = uint64(1 + r.intn(8))
 		}
+		if s.climber {
+			s.maximum = []uint64{16, 24, 32, 48}[r.intn(4)]
+		}
 		opts.MaximumSize = int(s.maximum)
 	case 2:
 		s.maximum = uint64(2 + r.intn(8))
+		if s.climber {
+			s.maximum = []uint64{16, 32, 48, 64, 96}[r.intn(5)]
+		}
 		opts.MaximumWeight = s.maximum
 		n := 5 + r.intn(4)
 		s.wtab = make([]uint32, n)
@@ -233,6 +250,10 @@ func (s *seqCase) setup(caseNo int) {
 				s.wtab[i] = 3
 			default:
 				s.wtab[i] = uint32(s.maximum) + 1 + uint32(r.intn(3))
+			}
+			if s.climber {
+				// heterogeneous weights around the climber's amount: some heads fit its quota, some do not
+				s.wtab[i] = []uint32{0, 1, 1, 2, 3, 4, 6, 9}[r.intn(8)]
 			}
 		}
 		if !s.maintMode && r.chance(20) {
@@ -322,6 +343,10 @@ func (s *seqCase) setup(caseNo int) {
 	opts.Clock = s.clk
 	opts.StatsRecorder = stats.NewCounter()
 	opts.Logger = &otter.NoopLogger{}
+	if s.climber {
+		s.phaseKeys = [2]int{max(2, int(s.maximum)/4), int(s.maximum) * 2}
+		s.nkeys = s.phaseKeys[0]
+	}
 	opts.Executor = func(fn func()) {
 		if s.immediate {
 			fn()
@@ -334,6 +359,15 @@ func (s *seqCase) setup(caseNo int) {
 	otter.VerifHook = func(id int) {
 		if id == 1 && !s.inTarget {
 			s.maintRuns = append(s.maintRuns, s.now())
+			s.maintAdj = append(s.maintAdj, 0)
+		}
+	}
+	otter.VerifValueHook = func(id int, v int64) {
+		if id == 11 && !s.inTarget && len(s.maintAdj) > 0 {
+			s.maintAdj[len(s.maintAdj)-1] = v
+			if v != 0 {
+				s.sum.Dist["climber_nonzero_amount"]++
+			}
 		}
 	}
 	s.c = otter.Must(opts)
@@ -1147,6 +1181,12 @@ func runSeqMode(seed uint64, scale int, out string, maintMode bool) *summary {
 		s.setup(cn)
 		sum.Cases++
 		nops := 150 + s.r.intn(200)
+		if s.climber {
+			// long enough for several of the climber's samples (ten requests per unit of the maximum each), with
+			// phases of few keys (hits) and of many keys (misses) so that the sampled hit rate rises and falls
+			nops = 1400 + s.r.intn(600)
+			sum.Dist["cfg_climber"]++
+		}
 		// in a third of the closed-loop cases the queued maintenance tasks are run rarely, so that several
 		// write events pile up in the write buffer (and can be re-queued in another order)
 		drainChance := 65
@@ -1154,6 +1194,9 @@ func runSeqMode(seed uint64, scale int, out string, maintMode bool) *summary {
 			drainChance = 10
 		}
 		for i := 0; i < nops; i++ {
+			if s.climber && i%230 == 0 {
+				s.nkeys = s.phaseKeys[(i/230)%2]
+			}
 			s.step()
 			if s.r.chance(drainChance) {
 				s.drain()
@@ -1414,13 +1457,15 @@ func (s *seqCase) flushMaint(name string) {
 	}
 	if !s.maintMode {
 		s.maintRuns = s.maintRuns[:0]
+		s.maintAdj = s.maintAdj[:0]
 		return
 	}
-	for _, now := range s.maintRuns {
-		s.t.line("M %d", now)
+	for i, now := range s.maintRuns {
+		s.t.line("M %d %d", now, s.maintAdj[i])
 		s.sum.Dist["maintenance_runs"]++
 	}
 	s.maintRuns = s.maintRuns[:0]
+	s.maintAdj = s.maintAdj[:0]
 }
 
 func vnList(tag string, ns []otter.VerifNode[int, int]) string {
@@ -1441,8 +1486,12 @@ func (s *seqCase) audit() {
 		fmt.Fprintf(&sb, " | %s | %s | %s | C %d %d %d %d %d %d %d %d", vnList("W", a.Window), vnList("P", a.Probation), vnList("T", a.Protected),
 			a.Maximum, a.WeightedSize, a.WindowMaximum, a.WindowSize, a.ProtectedMaximum, a.ProtSize, b2iG(a.SketchInit), a.SketchTableLen)
 		// the hashes the sketch gives every key under the current seed
-		fmt.Fprintf(&sb, " | H %d", s.nkeys+2)
-		for k := 0; k < s.nkeys+2; k++ {
+		nh := s.nkeys + 2
+		if s.climber {
+			nh = s.phaseKeys[1] + 2 // the key range changes with the phase: always list the widest
+		}
+		fmt.Fprintf(&sb, " | H %d", nh)
+		for k := 0; k < nh; k++ {
 			fmt.Fprintf(&sb, " %d", otter.VerifSketchHash(s.c, k))
 		}
 	}
